@@ -9,7 +9,9 @@ Bias injections (DESIGN §5 C06/C07 workloads) append hand-shaped constructs to 
     dcrm      `if a or b then x += 1`; constant tautological / contradictory conjuncts in preconditions; disjunctive goals
     ncrm      `f := false; if c then f := true` with a reader of `not f`
     tcrm      fluent-valued Boolean assignment `f := g` on a fluent watched by a trajectory constraint
-    grounder  static Boolean precondition with per-fluent default true / false / undefined; one parameter used twice
+    grounder  static Boolean precondition with per-fluent default true / false / undefined; one parameter used twice;
+              static binary / ternary relation with random asymmetric initial values as a precondition over 2-3 different
+              parameters (any argument order, relation possibly twice) of a token-moving action (inj_grounder_relation)
     qurm      nested quantifier in a precondition / quantified conditional forall effect
     utfr      object fluent used as an argument of another fluent
 """
